@@ -1,6 +1,7 @@
 package lime
 
 import (
+	"bytes"
 	"context"
 	"crypto/tls"
 	"encoding/json"
@@ -21,6 +22,8 @@ type tcpTransport struct {
 	conn          net.Conn
 	ctxConn       *ctxConn
 	encoder       *json.Encoder
+	writer        io.Writer // where the encoded envelopes are written (the connection, plus the trace writer)
+	sendErr       error     // set once an envelope was written only in part
 	decoder       *json.Decoder
 	limitedReader io.LimitedReader
 	encryption    SessionEncryption
@@ -135,11 +138,26 @@ func (t *tcpTransport) Send(ctx context.Context, e envelope) error {
 		return fmt.Errorf("tcp transport: send: %w", err)
 	}
 
+	if t.sendErr != nil {
+		return fmt.Errorf("tcp transport: send: an earlier envelope was only partially written: %w", t.sendErr)
+	}
+
 	t.ctxConn.SetWriteContext(ctx)
 
-	if err := t.encoder.Encode(e); err != nil {
+	// Encode first and write afterwards: an encoder bound to the connection keeps
+	// its first write error (say, a cancelled context) for every later envelope.
+	var buf bytes.Buffer
+	if err := json.NewEncoder(&buf).Encode(e); err != nil {
+		return fmt.Errorf("tcp transport: send: %w", err)
+	}
+
+	if n, err := t.writer.Write(buf.Bytes()); err != nil {
 		if errors.Is(err, io.EOF) {
 			t.eof = true
+		}
+		if n > 0 {
+			// part of the envelope is on the wire: nothing can follow it
+			t.sendErr = err
 		}
 		return fmt.Errorf("tcp transport: send: %w", err)
 	}
@@ -217,6 +235,8 @@ func (t *tcpTransport) setConn(conn net.Conn) {
 
 	// Sets the encoder to be used for sending envelopes
 	t.encoder = json.NewEncoder(writer)
+	t.writer = writer
+	t.sendErr = nil
 
 	if t.ReadLimit == 0 {
 		t.ReadLimit = DefaultReadLimit
